@@ -52,72 +52,116 @@ theorem dupScan_false_iff (r : Node) (s : List Node) (hs : Sorted Node.less s) :
 
 /-! ### the node sort (graph.go:133-140) -/
 
+/-- What `sort.Sort(on)` with `KeepZero` may leave behind, for **any** correct sorting
+algorithm: a permutation of the (node, old id) pairs, the root pair first, the others
+sorted by `Node.Compare` (pairs of identical nodes in any relative order). -/
+structure NodeSorted (N0 : List Node) (P : List (Node × Nat)) : Prop where
+  perm : P ~ N0.zipIdx
+  head : P.head? = N0.zipIdx.head?
+  sorted : Sorted pairLess P.tail
+
 theorem sortNodes_perm (N0 : List Node) : sortNodes N0 ~ N0.zipIdx := by
   unfold sortNodes
   split
   · rename_i h; rw [h]
   · rename_i r rest h; rw [h]; exact (sortBy_perm rest).cons r
 
-theorem sortNodes_ids_perm (N0 : List Node) : (sortNodes N0).map Prod.snd ~ List.range N0.length := by
-  have := (sortNodes_perm N0).map Prod.snd
+/-- The model's (stable insertion) sort is one such result. -/
+theorem sortNodes_nodeSorted (N0 : List Node) : NodeSorted N0 (sortNodes N0) where
+  perm := sortNodes_perm N0
+  head := by
+    unfold sortNodes
+    split
+    · rename_i h; rw [h]
+    · rename_i r rest h; rw [h]; rfl
+  sorted := by
+    unfold sortNodes
+    split
+    · exact List.Pairwise.nil
+    · exact sortBy_sorted pairLess_strictWeak _
+
+namespace NodeSorted
+variable {N0 : List Node} {P : List (Node × Nat)}
+
+theorem ids_perm (h : NodeSorted N0 P) : P.map Prod.snd ~ List.range N0.length := by
+  have := h.perm.map Prod.snd
   rwa [List.zipIdx_map_snd, ← List.range_eq_range'] at this
 
-theorem sortNodes_length (N0 : List Node) : (sortNodes N0).length = N0.length := by
-  simpa using (sortNodes_perm N0).length_eq
+theorem length_eq (h : NodeSorted N0 P) : P.length = N0.length := by
+  simpa using h.perm.length_eq
 
-theorem sortNodes_mem {N0 : List Node} {p : Node × Nat} (h : p ∈ sortNodes N0) : N0[p.2]? = some p.1 :=
-  List.mem_zipIdx_iff_getElem?.mp ((sortNodes_perm N0).mem_iff.mp h)
+theorem mem (h : NodeSorted N0 P) {p : Node × Nat} (hp : p ∈ P) : N0[p.2]? = some p.1 :=
+  List.mem_zipIdx_iff_getElem?.mp (h.perm.mem_iff.mp hp)
 
-theorem sortNodes_cons (r : Node) (t : List Node) :
-    sortNodes (r :: t) = (r, 0) :: sortBy pairLess (t.zipIdx 1) := by
-  simp [sortNodes, List.zipIdx_cons]
-
-/-- The sorted node slice: the root, then the others sorted by `Node.Compare`. -/
-theorem sortNodes_fst_cons (r : Node) (t : List Node) :
-    (sortNodes (r :: t)).map Prod.fst = r :: sortBy Node.less t := by
-  rw [sortNodes_cons, List.map_cons, map_fst_sortBy_pairLess, List.zipIdx_map_fst]
-
-theorem sortNodes_idxOf_zero (N0 : List Node) : ((sortNodes N0).map Prod.snd).idxOf 0 = 0 := by
+theorem idxOf_zero (h : NodeSorted N0 P) : (P.map Prod.snd).idxOf 0 = 0 := by
+  have hh := h.head
   cases N0 with
-  | nil => simp [sortNodes]
-  | cons r t => rw [sortNodes_cons]; simp
+  | nil =>
+    have : P = [] := by simpa using h.perm
+    rw [this]; rfl
+  | cons r t =>
+    cases P with
+    | nil => simp at hh
+    | cons p ps =>
+      simp only [List.zipIdx_cons, List.head?_cons, Option.some.injEq] at hh
+      subst hh; simp
 
-theorem getElem?_map_fst_of_snd {P : List (Node × Nat)} {k : Nat} (hk : k < P.length) :
-    (P.map Prod.fst)[k]? = some (P[k]).1 ∧ (P.map Prod.snd)[k]'(by simpa using hk) = (P[k]).2 := by
-  simp [hk]
+/-- The sorted node slice is determined by the contents: the root, then the others sorted. -/
+theorem fst_cons {r : Node} {t : List Node} (h : NodeSorted (r :: t) P) :
+    P.map Prod.fst = r :: sortBy Node.less t := by
+  have hh := h.head
+  cases P with
+  | nil => simp at hh
+  | cons p ps =>
+    simp only [List.zipIdx_cons, List.head?_cons, Option.some.injEq] at hh
+    subst hh
+    have hp : ps ~ t.zipIdx 1 := by
+      have := h.perm
+      rw [List.zipIdx_cons] at this
+      exact (List.perm_cons _).mp this
+    have hs : Sorted Node.less (ps.map Prod.fst) :=
+      List.Pairwise.map Prod.fst (fun _ _ hab => hab) h.sorted
+    have hp' : ps.map Prod.fst ~ t := by
+      have := hp.map Prod.fst
+      rwa [List.zipIdx_map_fst] at this
+    simp only [List.map_cons]
+    rw [eq_sortBy_of_sorted_perm nodeLess_strictTotal hs hp']
 
-/-- The node-sort stage succeeds on in-range edges and is a relabeling by `Mapping()`. -/
-theorem stage1_iso {N0 : List Node} {E : List Edge} (hE : EdgesIn N0.length E) :
-    ∃ σ E1, stage1 N0 E = .ok ((sortNodes N0).map Prod.fst, E1) ∧
-      Iso σ N0 E ((sortNodes N0).map Prod.fst) E1 ∧
-      E1 = sortBy Edge.less (E.map (mapE σ)) ∧ σ = (fun x => ((sortNodes N0).map Prod.snd).idxOf x) := by
-  let ids := (sortNodes N0).map Prod.snd
-  have hidsP : ids ~ List.range N0.length := sortNodes_ids_perm N0
-  have hidsL : ids.length = N0.length := by simp [ids, sortNodes_length]
-  have hE' : EdgesIn ids.length E := hidsL ▸ hE
-  refine ⟨fun x => ids.idxOf x, sortBy Edge.less (E.map (mapE (fun x => ids.idxOf x))), ?_, ?_, rfl, rfl⟩
-  · unfold stage1
-    simp only []
-    rw [renumberEdges_ok hE']
-  · have hmem : ∀ i, i < N0.length → i ∈ ids := fun i hi => hidsP.mem_iff.mpr (List.mem_range.mpr hi)
-    refine ⟨by simp [sortNodes_length], ?_, ?_, sortNodes_idxOf_zero N0, ?_, sortBy_perm _⟩
-    · intro i hi
-      have := List.idxOf_lt_length_of_mem (hmem i hi)
-      rwa [hidsL] at this
-    · intro i j hi _ e
-      exact idxOf_inj (hmem i hi) e
-    · intro i hi
-      have hk : ids.idxOf i < ids.length := List.idxOf_lt_length_of_mem (hmem i hi)
-      have hk' : ids.idxOf i < (sortNodes N0).length := by simpa [ids] using hk
-      have e1 : ids[ids.idxOf i] = i := List.getElem_idxOf hk
-      have hp := sortNodes_mem (List.getElem_mem hk')
-      have e2 : ((sortNodes N0)[ids.idxOf i]).2 = i := by
-        have := e1
-        simp only [ids, List.getElem_map] at this
-        exact this
-      rw [e2] at hp
-      rw [hp]
-      simp [hk']
+theorem fst_eq (h : NodeSorted N0 P) : P.map Prod.fst = (sortNodes N0).map Prod.fst := by
+  cases N0 with
+  | nil =>
+    have : P = [] := by simpa using h.perm
+    rw [this]; rfl
+  | cons r t => rw [h.fst_cons, (sortNodes_nodeSorted (r :: t)).fst_cons]
+
+/-- The node sort followed by `renumber(on.Mapping(), false)` is a relabeling. -/
+theorem iso (h : NodeSorted N0 P) {E : List Edge} :
+    Iso (fun x => (P.map Prod.snd).idxOf x) N0 E (P.map Prod.fst)
+      (sortBy Edge.less (E.map (mapE (fun x => (P.map Prod.snd).idxOf x)))) := by
+  have hidsP := h.ids_perm
+  have hidsL : (P.map Prod.snd).length = N0.length := by simp [h.length_eq]
+  have hmem : ∀ i, i < N0.length → i ∈ P.map Prod.snd :=
+    fun i hi => hidsP.mem_iff.mpr (List.mem_range.mpr hi)
+  refine ⟨by simp [h.length_eq], ?_, ?_, h.idxOf_zero, ?_, sortBy_perm _⟩
+  · intro i hi
+    have := List.idxOf_lt_length_of_mem (hmem i hi)
+    rwa [hidsL] at this
+  · intro i j hi _ e
+    exact idxOf_inj (hmem i hi) e
+  · intro i hi
+    have hk : (P.map Prod.snd).idxOf i < (P.map Prod.snd).length := List.idxOf_lt_length_of_mem (hmem i hi)
+    have hk' : (P.map Prod.snd).idxOf i < P.length := by simpa using hk
+    have e1 : (P.map Prod.snd)[(P.map Prod.snd).idxOf i] = i := List.getElem_idxOf hk
+    have hp := h.mem (List.getElem_mem hk')
+    have e2 : (P[(P.map Prod.snd).idxOf i]).2 = i := by
+      have := e1
+      simp only [List.getElem_map] at this
+      exact this
+    rw [e2] at hp
+    rw [hp]
+    simp [hk']
+
+end NodeSorted
 
 /-! ### the BFS stage (graph.go:150-160) -/
 
@@ -224,65 +268,91 @@ theorem bfsStage_relabel {N : List Node} {E : List Edge} (hE : EdgesIn N.length 
       rw [List.getElem?_eq_getElem hk, List.getElem_idxOf hk]
       rfl
 
-/-! ### `Canon` after the error sort -/
+/-! ### `Canon` after the error sort, for an arbitrary result of the node sort -/
 
-theorem stage1_edgesIn {N0 : List Node} {E : List Edge} {r : List Node × List Edge}
-    (h : stage1 N0 E = .ok r) : EdgesIn N0.length E := by
-  unfold stage1 at h
-  simp only [] at h
-  cases hr : renumberEdges (mapping ((sortNodes N0).map (·.2))) E with
-  | err => simp [hr] at h
-  | panic s => simp [hr] at h
-  | ok E1 =>
-    have := edgesIn_of_renumberEdges_ok hr
-    rwa [length_mapping, List.length_map, sortNodes_length] at this
+theorem renumberEdges_panic {m : List Nat} {E : List Edge} (h : ¬ EdgesIn m.length E) :
+    renumberEdges m E = .panic "graph.go:oldToNew[e.From]" := by
+  unfold renumberEdges
+  split
+  · rename_i hall
+    exfalso; apply h
+    rw [List.all_eq_true] at hall
+    intro e he
+    simpa using hall e he
+  · rfl
 
-/-- **Relabel invariance, exact form**: relabelled inputs give the same outcome. -/
-theorem canonSorted_iso {f : Nat → Nat} {N0 N0' : List Node} {E E' : List Edge} (h : Iso f N0 E N0' E')
-    (hE : EdgesIn N0.length E) : canonSorted N0 E = canonSorted N0' E' := by
+/-- graph.go:136-162 with `P` standing for `on` after `sort.Sort(on)`. -/
+def canonWith (P : List (Node × Nat)) (E : List Edge) : Outcome Graph :=
+  match renumberEdges (mapping (P.map (·.2))) E with
+  | .err => .err
+  | .panic s => .panic s
+  | .ok E1 =>
+    if dupScan (P.map (·.1)) then bfsStage (P.map (·.1)) E1
+    else .ok { nodes := P.map (·.1), edges := E1 }
+
+theorem canonSorted_eq_canonWith (N0 : List Node) (E : List Edge) :
+    canonSorted N0 E = canonWith (sortNodes N0) E := by
+  unfold canonSorted canonWith stage1
+  simp only []
+  cases renumberEdges (mapping ((sortNodes N0).map (·.2))) E <;> rfl
+
+theorem canonWith_ok {N0 : List Node} {P : List (Node × Nat)} (h : NodeSorted N0 P) {E : List Edge}
+    (hE : EdgesIn N0.length E) :
+    canonWith P E =
+      if dupScan (P.map Prod.fst) then
+        bfsStage (P.map Prod.fst) (sortBy Edge.less (E.map (mapE (fun x => (P.map Prod.snd).idxOf x))))
+      else .ok { nodes := P.map Prod.fst,
+                 edges := sortBy Edge.less (E.map (mapE (fun x => (P.map Prod.snd).idxOf x))) } := by
+  unfold canonWith
+  have hl : (P.map Prod.snd).length = N0.length := by simp [h.length_eq]
+  rw [renumberEdges_ok (hl ▸ hE)]
+
+/-- **Relabel invariance, exact form**, for any two results of the node sort. -/
+theorem canonWith_iso {f : Nat → Nat} {N0 N0' : List Node} {E E' : List Edge} (h : Iso f N0 E N0' E')
+    (hE : EdgesIn N0.length E) {P P' : List (Node × Nat)} (hP : NodeSorted N0 P) (hP' : NodeSorted N0' P') :
+    canonWith P E = canonWith P' E' := by
   have hE' : EdgesIn N0'.length E' := h.edgesIn hE
-  obtain ⟨σ, E1, hs, I1, hE1, hσ⟩ := stage1_iso hE
-  obtain ⟨σ', E1', hs', I1', hE1', hσ'⟩ := stage1_iso hE'
+  have I1 := hP.iso (E := E)
+  have I1' := hP'.iso (E := E')
   -- the sorted node slices coincide
-  have hN : (sortNodes N0').map Prod.fst = (sortNodes N0).map Prod.fst := by
+  have hN : P'.map Prod.fst = P.map Prod.fst := by
     cases N0 with
     | nil =>
-      have : N0' = [] := List.eq_nil_of_length_eq_zero (by simpa using h.len)
-      rw [this]
+      have e0 : N0' = [] := List.eq_nil_of_length_eq_zero (by simpa using h.len)
+      subst e0
+      rw [hP.fst_eq, hP'.fst_eq]
     | cons r t =>
       cases N0' with
       | nil => have := h.len; simp at this
       | cons r' t' =>
         obtain ⟨hr, ht⟩ := h.head_tail
-        rw [sortNodes_fst_cons, sortNodes_fst_cons, hr, sortBy_eq_of_perm nodeLess_strictTotal ht]
-  unfold canonSorted
-  rw [hs, hs']
-  simp only []
-  rw [hN]
-  by_cases hd : dupScan ((sortNodes N0).map Prod.fst) = true
+        rw [hP.fst_cons, hP'.fst_cons, hr, sortBy_eq_of_perm nodeLess_strictTotal ht]
+  rw [canonWith_ok hP hE, canonWith_ok hP' hE', hN]
+  by_cases hd : dupScan (P.map Prod.fst) = true
   · simp only [hd, if_true]
     have hn : 0 < N0.length := by
       cases N0 with
-      | nil => simp [sortNodes, dupScan] at hd
+      | nil =>
+        have : P = [] := by simpa using hP.perm
+        rw [this] at hd; simp [dupScan] at hd
       | cons _ _ => simp
     have hn' : 0 < N0'.length := h.len ▸ hn
-    have hN' := hN
-    rw [bfsStage_iso I1 hE hn |>.symm, bfsStage_iso h hE hn]
-    rw [← hN]
+    rw [(bfsStage_iso I1 hE hn).symm, bfsStage_iso h hE hn, ← hN]
     exact bfsStage_iso I1' hE' hn'
   · simp only [hd, Bool.false_eq_true, if_false]
-    have hd' : dupScan ((sortNodes N0).map Prod.fst) = false := by simpa using hd
+    have hd' : dupScan (P.map Prod.fst) = false := by simpa using hd
     congr 2
     -- no duplicates: positions in the sorted slice are determined by contents
-    have hnd : ((sortNodes N0).map Prod.fst).Nodup := by
+    have hnd : (P.map Prod.fst).Nodup := by
       cases N0 with
-      | nil => simp [sortNodes]
+      | nil =>
+        have : P = [] := by simpa using hP.perm
+        rw [this]; exact List.nodup_nil
       | cons r t =>
-        rw [sortNodes_fst_cons] at hd' ⊢
+        rw [hP.fst_cons] at hd' ⊢
         exact (dupScan_false_iff r _ (sortBy_sorted nodeLess_strictTotal.weak t)).mp hd'
-    rw [hE1, hE1']
     apply sortBy_eq_of_perm edgeLess_strictTotal
-    have p1 := h.edges.map (mapE σ')
+    have p1 := h.edges.map (mapE (fun x => (P'.map Prod.snd).idxOf x))
     rw [List.map_map, mapE_comp] at p1
     refine (Perm.of_eq ?_).trans p1.symm
     apply mapE_congr hE
@@ -291,37 +361,91 @@ theorem canonSorted_iso {f : Nat → Nat} {N0 N0' : List Node} {E E' : List Edge
     have a1 := I1.node x hx
     have a2 := I1'.node (f x) (h.len ▸ h.lt x hx)
     rw [h.node x hx, hN, ← a1] at a2
-    have hlt1 : σ x < ((sortNodes N0).map Prod.fst).length := by
+    have hlt1 : (P.map Prod.snd).idxOf x < (P.map Prod.fst).length := by
       have := I1.lt x hx; rwa [← I1.len] at this
     exact (List.getElem?_inj hlt1 hnd).mp a2.symm
+
+theorem Iso.refl (N : List Node) (E : List Edge) : Iso (fun x => x) N E N E where
+  len := rfl
+  lt := fun _ h => h
+  inj := fun _ _ _ _ e => e
+  root := rfl
+  node := fun _ _ => rfl
+  edges := by
+    have : E.map (mapE (fun x => x)) = E := by
+      rw [show mapE (fun x => x) = id from rfl]; exact List.map_id _
+    rw [this]
+
+/-- **The node sort's tie-breaking does not matter**: whatever order `sort.Sort` leaves
+identical nodes in, the rest of `Canon` computes what the model computes. -/
+theorem canonWith_eq_canonSorted {N0 : List Node} {P : List (Node × Nat)} (hP : NodeSorted N0 P)
+    {E : List Edge} (hE : EdgesIn N0.length E) : canonWith P E = canonSorted N0 E := by
+  rw [canonSorted_eq_canonWith]
+  exact canonWith_iso (Iso.refl N0 E) hE hP (sortNodes_nodeSorted N0)
+
+/-- **Relabel invariance, exact form.** -/
+theorem canonSorted_iso {f : Nat → Nat} {N0 N0' : List Node} {E E' : List Edge} (h : Iso f N0 E N0' E')
+    (hE : EdgesIn N0.length E) : canonSorted N0 E = canonSorted N0' E' := by
+  rw [canonSorted_eq_canonWith, canonSorted_eq_canonWith]
+  exact canonWith_iso h hE (sortNodes_nodeSorted N0) (sortNodes_nodeSorted N0')
+
+/-- `Canon` panics (index out of range in `renumber`) exactly on edges that are not in range. -/
+theorem canonSorted_panic_of_not_edgesIn {N0 : List Node} {E : List Edge} (hE : ¬ EdgesIn N0.length E) :
+    canonSorted N0 E = .panic "graph.go:oldToNew[e.From]" := by
+  rw [canonSorted_eq_canonWith]
+  unfold canonWith
+  have hl : (mapping ((sortNodes N0).map (·.2))).length = N0.length := by
+    rw [length_mapping, List.length_map, (sortNodes_nodeSorted N0).length_eq]
+  rw [renumberEdges_panic (hl ▸ hE)]
+
+theorem bfsStage_no_panic {N : List Node} {E : List Edge} (hE : EdgesIn N.length E) (hn : 0 < N.length) :
+    ∀ s, bfsStage N E ≠ .panic s := by
+  intro s
+  cases hc : canonBFS N E with
+  | err => simp [bfsStage, hc]
+  | panic s' => exact absurd hc (canonBFS_no_panic hE s')
+  | ok order => rw [bfsStage_ok hE hn hc]; simp
+
+/-- On in-range edges the model never reports a panic; in particular the loop bound
+`1 + len(edges)` of `canonBFS` is never hit. -/
+theorem canonSorted_no_panic {N0 : List Node} {E : List Edge} (hE : EdgesIn N0.length E) :
+    ∀ s, canonSorted N0 E ≠ .panic s := by
+  intro s
+  have hP := sortNodes_nodeSorted N0
+  rw [canonSorted_eq_canonWith, canonWith_ok hP hE]
+  split
+  · rename_i hd
+    have hn : 0 < N0.length := by
+      cases N0 with
+      | nil => simp [sortNodes, dupScan] at hd
+      | cons _ _ => simp
+    have I1 := hP.iso (E := E)
+    exact bfsStage_no_panic (I1.edgesIn hE) (by rw [I1.len]; exact hn) s
+  · simp
 
 /-- **`Canon` relabels its input** (after the error sort): the output is the input with its
 nodes renumbered by a permutation fixing the root, and its edges reordered. -/
 theorem canonSorted_relabel {N0 : List Node} {E : List Edge} {g' : Graph}
     (h : canonSorted N0 E = .ok g') : EdgesIn N0.length E ∧ ∃ π, Iso π N0 E g'.nodes g'.edges := by
   have hE : EdgesIn N0.length E := by
-    unfold canonSorted at h
-    cases hs : stage1 N0 E with
-    | err => simp [hs] at h
-    | panic s => simp [hs] at h
-    | ok r => exact stage1_edgesIn hs
+    apply Classical.byContradiction
+    intro hE
+    rw [canonSorted_panic_of_not_edgesIn hE] at h
+    cases h
   refine ⟨hE, ?_⟩
-  obtain ⟨σ, E1, hs, I1, _, _⟩ := stage1_iso hE
-  unfold canonSorted at h
-  rw [hs] at h
-  simp only [] at h
+  have hP := sortNodes_nodeSorted N0
+  have I1 := hP.iso (E := E)
+  rw [canonSorted_eq_canonWith, canonWith_ok hP hE] at h
   by_cases hd : dupScan ((sortNodes N0).map Prod.fst) = true
   · simp only [hd, if_true] at h
     have hn : 0 < N0.length := by
       cases N0 with
       | nil => simp [sortNodes, dupScan] at hd
       | cons _ _ => simp
-    have hE1 : EdgesIn ((sortNodes N0).map Prod.fst).length E1 := I1.edgesIn hE
-    have hn1 : 0 < ((sortNodes N0).map Prod.fst).length := by rw [I1.len]; exact hn
-    obtain ⟨β, I2⟩ := bfsStage_relabel hE1 hn1 h
+    obtain ⟨β, I2⟩ := bfsStage_relabel (I1.edgesIn hE) (by rw [I1.len]; exact hn) h
     exact ⟨_, I1.trans I2⟩
   · simp only [hd, Bool.false_eq_true, if_false, Outcome.ok.injEq] at h
     subst h
-    exact ⟨σ, I1⟩
+    exact ⟨_, I1⟩
 
 end DepsDev.Resolve.GraphCanon
